@@ -211,7 +211,7 @@ def check_number(name, mod, getters, v, x, viols, cells, clock=None):
         kind = 'value' if o[0] == 'ok' and o[1] is not None else 'None' if o[0] == 'ok' else o[0]
         cells.add((name, gname, kind))
         if o[0] == 'exc':
-            add(viols, 'C12|%s.%s|raises-%s' % (name, gname, o[1]), '%s.%s(%r) raised %s (%s) at %s although validate() accepts the number' % (
+            add(viols, 'C12|%s.%s|raises-%s|%s' % (name, gname, o[1], o[2]), '%s.%s(%r) raised %s (%s) at %s although validate() accepts the number' % (
                 name, gname, x, o[1], o[3], o[2]), dict(w, getter=gname))
             continue
         if o[0] != 'ok':
